@@ -10,7 +10,7 @@ Require Import FV.Gen.C12 FV.C12.Model FV.C12.Lemmas FV.C12.Refuted.
 Theorem C12_source_facts :
   update_messages_ok = true /\ timestamp_clamped_before_update = true /\ shorthand_lookup_shape = true /\
   update_value_order = true /\ callback_iterates_copy = true /\ internalize_shape = true /\
-  error_default_is_InternalError = true /\ predefined_names <> [] /\ error_classes <> [] /\ error_names <> [].
+  error_default_is_InternalError = true /\ array_validate_pads_previous = true /\ predefined_names <> [] /\ error_classes <> [] /\ error_names <> [].
 Proof. repeat split; try reflexivity; discriminate. Qed.
 
 (* 1. The cache entry of every parameter is the meaning (decode) of the last line accepted for it -- whatever the
@@ -93,19 +93,17 @@ Proof.
   split; [exact L|split; [apply register_cache|split; [exact F|exact A]]].
 Qed.
 
-(* 7. Write path end to end.  Full statement: the driver receives the value the caller passed and the cache
-      receives the value the driver returned, for conversions that round-trip (the datatype law of C02).
-      The pinned node violates it for arrays longer than the previous value (Refuted.C12_refuted_array_write_truncated);
-      proved with exactly that guard, together with what the node does instead. *)
+(* 7. Write path end to end: the driver receives the value the caller passed and the cache receives the value the
+      driver returned, for conversions that round-trip (the datatype law of C02); the node's validation of an array
+      against the previous value of the parameter hands every element on (it cut the array to the previous length
+      until repository commit 672d284; the source fact array_validate_pads_previous ties the model to the fix). *)
 Theorem C12_e2e_write : forall exp_c imp_n exp_n imp_c v r,
   (forall x, exists j, exp_c x = Some j /\ imp_n j = Some x) ->
   (forall x, exists j, exp_n x = Some j /\ imp_c j = Some x) ->
   e2e_write exp_c imp_n exp_n imp_c v r = (Some v, Some r).
 Proof. intros; apply e2e_write_roundtrip; auto. Qed.
-Theorem C12_e2e_array_except_truncation : forall (A : Type) (prev v : list A),
-  (prev = [] \/ length v <= length prev -> array_validate prev v = v) /\
-  (prev <> [] -> array_validate prev v = firstn (length prev) v).
-Proof. intros; split; [apply array_validate_exact|apply array_validate_truncates]. Qed.
+Theorem C12_e2e_array_exact : forall (A : Type) (prev v : list A), array_validate prev v = v.
+Proof. intros; apply array_validate_exact. Qed.
 
 (* non-vacuity: a history with a one-shot node callback, a failing module callback and a malformed line *)
 Definition demo_d : dsc := [([109%N], [{| a_name := s_value; a_cmd := false; a_dt := 0 |}])].
@@ -136,6 +134,5 @@ Print Assumptions C12_timestamp_not_future.
 Print Assumptions C12_malformed_skipped.
 Print Assumptions C12_register_immediate.
 Print Assumptions C12_e2e_write.
-Print Assumptions C12_e2e_array_except_truncation.
+Print Assumptions C12_e2e_array_exact.
 Print Assumptions C12_refuted_missing_ident.
-Print Assumptions C12_refuted_array_write_truncated.
